@@ -87,7 +87,7 @@ def cases(tier, rng, dist):
         if len(set(x)) < 2:
             x[0] += mult
         yield {"f": "biv", "x": [str(v) for v in x], "g1": g1, "g2": g2, "reps": rng.randint(1, 5), "plus1": rng.random() < 0.5, "keep": rng.random() < 0.5,
-               "mode": mode(), "aseed": rng.randint(0, 10**9)}
+               "mode": mode(), "aseed": rng.randint(0, 10**9), "cstat": rng.random() < 0.3}    # cstat: a user callable as statistic
     for _ in range(N // 2):
         # sim_corr: x values 4^i identify the arrangement through the statistic; strata of size >= 2 (a pair has
         # correlation +-1, defined as long as its two y values differ)
@@ -186,11 +186,18 @@ def run(c):
         out = {}
         for tag, keep, answers in (("a", c["keep"], None), ("b", not c["keep"], "replay")):
             t = Tape(None, chooser_of(c)) if answers is None else Tape([a for (_, a) in out["a"]["log"]])
-            r, unmod, gsame = call_test(ksample.bivariate_k_sample, (x, g1, g2), dict(reps=c["reps"], keep_dist=keep, seed=t, plus1=c["plus1"]), (x, g1, g2))
+            kw = dict(reps=c["reps"], keep_dist=keep, seed=t, plus1=c["plus1"])
+            rec = []
+            if c.get("cstat"):
+                def cst(xx, gg1, gg2, xbar, rec=rec):
+                    rec.append((np.array(gg1).tolist(), np.array(gg2).tolist(), float(xbar)))
+                    return float(sum(float(v) * (i + 1) for i, v in enumerate(np.asarray(xx, dtype=float)) if gg2[i] == min(np.array(gg2).tolist())))
+                kw["stat"] = cst
+            r, unmod, gsame = call_test(ksample.bivariate_k_sample, (x, g1, g2), kw, (x, g1, g2))
             if r[0] != "ok":
                 out[tag] = {"r": list(r)}; continue
             v = r[1]
-            out[tag] = {"r": ["ok", float(v[0]), float(v[1]), [float(z) for z in v[2]] if keep else None], "log": list(t.log), "unmodified": unmod, "global_same": gsame, "keep": keep}
+            out[tag] = {"r": ["ok", float(v[0]), float(v[1]), [float(z) for z in v[2]] if keep else None], "log": list(t.log), "unmodified": unmod, "global_same": gsame, "keep": keep, "rec": rec}
         return out
     if f == "simcorr":
         x = arr([F(v) for v in c["x"]]); y = arr([F(v) for v in c["y"]]); g = np.array(c["g"])
@@ -228,7 +235,7 @@ def named_call(c, seed, keep=True):
         m = np.vstack([m, 1 - m])
     # the reference value may be supplied by the caller (obs_ts=...): the p-value is then the tail count of dist
     # against THAT value; the keep_dist=False twin (same seed) must report the same p-value
-    obs = [None, 0.0, 0.5, 1.0, 0.25][c["seed"] % 5]
+    obs = [None, 0.0, 0.5, 1.0, 0.25][seed_int(c["seed"]) % 5]
     d = irr.simulate_ts_dist(m, obs_ts=obs, num_perm=c["reps"], keep_dist=keep, seed=seed, plus1=c["plus1"])
     if not keep:
         return d["pvalue"], d["obs_ts"], []
@@ -302,7 +309,7 @@ def run_named(c):
         out[tag] = {"r": ["ok", float(p), float(tst), [float(v) for v in d]], "global_same": g0 == g1}
     one("int1", lambda: c["seed"], c["gseed"]); one("int2", lambda: c["seed"], c["gseed"] + 1)
     one("sha", lambda: SHA256(c["seed"]), c["gseed"] + 2)
-    one("rs1", lambda: np.random.RandomState(c["seed"] % 2**32), c["gseed"] + 3); one("rs2", lambda: np.random.RandomState(c["seed"] % 2**32), c["gseed"] + 4)
+    one("rs1", lambda: np.random.RandomState(seed_int(c["seed"])), c["gseed"] + 3); one("rs2", lambda: np.random.RandomState(seed_int(c["seed"])), c["gseed"] + 4)
     if c["fn"] == "ts":
         r = guarded(lambda: named_call(c, c["seed"], keep=False))
         out["nokeep"] = {"r": ["ok", float(r[1][0]), float(r[1][1]), []] if r[0] == "ok" else list(r)}
@@ -341,6 +348,8 @@ def to_coq(c, o):
         return (f"S2sCase {zl(c['g'])} {zl(c['c'])} {qlist([F(v) for v in c['resp']])} {clist(o['ord'], cnat)} {st} {CALT[c['alt']]} {cnat(c['reps'])} "
                 f"{cbool(c['plus1'])} {tape_coq(a['log'])} {cq(fl(a['r'][1]))} {cq(fl(a['r'][2]))} {d} {rec} {cnat(len(a['log']))}")
     if f == "biv":
+        if c.get("cstat"):
+            return None
         a = o["a"]
         b = o["b"]
         if a["r"][0] != "ok" or b["r"][0] != "ok" or not math.isfinite(a["r"][2]): return None
@@ -482,6 +491,20 @@ def oracle(c, o):
             return None
         if not close(kept["r"][1], other["r"][1]) or kept["r"][2] != other["r"][2]:
             return {"why": "bivariate_k_sample: keep_dist changes the result", "cls": "biv:keepdist-differs"}
+        if c.get("cstat"):
+            x = [float(F(v)) for v in c["x"]]
+            f0 = lambda g2: float(sum(v * (i + 1) for i, v in enumerate(x) if g2[i] == min(g2)))
+            for t in (a, b):
+                if len(t["rec"]) != c["reps"] + 1:
+                    return {"why": f"bivariate_k_sample called the statistic {len(t['rec'])} times for reps={c['reps']}", "cls": "biv:call-count"}
+                for (gg1, gg2, xbar) in t["rec"]:
+                    if gg1 != c["g1"] or not within_strata_ok([F(v) for v in c["g2"]], [F(v) for v in gg2], c["g1"]):
+                        return {"why": f"bivariate_k_sample handed the statistic labels {gg2} (fixed factor {gg1}): not a rearrangement of {c['g2']} within the levels of {c['g1']}", "cls": "biv:inadmissible"}
+                    if abs(xbar - sum(x) / len(x)) > 1e-9 * (1 + abs(xbar)):
+                        return {"why": f"bivariate_k_sample passed overall mean {xbar}", "cls": "biv:observed-stat"}
+            if kept["r"][2] != f0(c["g2"]) or any(dv != f0(gg2) for dv, (_, gg2, _) in zip(kept["r"][3], kept["rec"][1:])):
+                return {"why": "bivariate_k_sample with a callable statistic: reported values are not the callable's values on the data as given / on the rearrangements it received", "cls": "biv:observed-stat"}
+            return tail_check("biv", "greater", kept["r"][1], kept["r"][2], kept["r"][3], c["plus1"])
         x = [F(v) for v in c["x"]]; m = sum(x) / len(x)
         sst = sum((v - m) ** 2 for v in x)
         ss2 = sum((sum(x[i] for i in range(len(x)) if c["g2"][i] == k) / c["g2"].count(k) - m) ** 2 for k in set(c["g2"]))
